@@ -133,9 +133,13 @@ def run(tier, corrupt=False):
     require(r1.ok, "model-level failure in MC_Encrypt (spec problem):\n" + r1.tail())
     for a in ("Grow", "Start", "Apply", "Undo"):
         require(r1.coverage.get(a, 0) > 0, f"vacuity: action {a} never fired in MC_Encrypt")
-    cov = {"states": r1.distinct, "transitions": r1.generated,
+    ra = run_tlc("MC_EncryptAlgo", "MC_EncryptAlgo.cfg", workers=8, timeout=1800)
+    require(ra.ok, "model-level failure in MC_EncryptAlgo (the PlusCal transcription of the loops disagrees with Encrypt.tla):\n" + ra.tail())
+    cov = {"states": r1.distinct + ra.distinct, "transitions": r1.generated + ra.generated,
            "model_runs": [{"module": "MC_Encrypt", "cfg": cfg, "distinct_states": r1.distinct, "wall_s": round(r1.wall, 1),
-                           "action_counts": {a: r1.coverage.get(a) for a in ("Grow", "Start", "Apply", "Undo")}}]}
+                           "action_counts": {a: r1.coverage.get(a) for a in ("Grow", "Start", "Apply", "Undo")}},
+                          {"module": "MC_EncryptAlgo", "distinct_states": ra.distinct,
+                           "note": "PlusCal transcription of the three loops of encryption_utils.py computes Encrypt.tla's functions for all strings <= 5 over 5 letters"}]}
     with scratch("c10-") as tmp:
         load_eolib_stubbed(snapshot_repo(tmp))
         _M = imp("eolib.encrypt.encryption_utils")
